@@ -109,6 +109,7 @@ def strip(l):
 def run(res):
     broken = C.prelude(res, need_dovi=True, tables=("Switches_gen", "Modes_gen"))
     r = C.rng(res.seed, "c06")
+    r2 = C.rng(res.seed, "c06tid")
     w = cli.Work("c06")
     ncase = 60 if res.tier == "quick" else 700
     from .. import rpucases as RC
@@ -128,6 +129,13 @@ def run(res):
         kinds[kind] += 1
         use_pool = r.random() < 0.5
         bl_frames, el_frames = gen_pair(r, nbl, nel, pool=pool if use_pool else None)
+        if r2.random() < 0.3:
+            # EL slices on a temporal sub-layer (nuh_temporal_id_plus1 = 2, 3): the wrapper stays 7E 01 (own PRNG
+            # stream, byte change in place: the other draws of the case are unaffected)
+            for f in el_frames:
+                for i, n in enumerate(f):
+                    if n.type < 10 and r2.random() < 0.6:
+                        f[i] = S.SNal(bytes([n.data[0], (n.data[1] & 0xF8) | r2.choice([2, 3])]) + n.data[2:], first=n.first, poc=n.poc, stype=n.stype)
         bl, el = S.flatten(bl_frames), S.flatten(el_frames)
         o = {"noaud": int(r.random() < 0.3), "eosfirst": int(r.random() < 0.3), "discard": int(r.random() < 0.25), "annexb": int(r.random() < 0.3),
              "mode": r.choice([None, None, None, 0, 1, 2, 3]) if use_pool else None}
